@@ -44,7 +44,7 @@ type Stats struct {
 	NonIdentityAcks, Recoveries                                      int
 	Invocations                                                      int
 	Savepoints, SelfExits                                            int
-	BarriersBothSides, MaxKeyCalls                                   int
+	BarriersBothSides, MaxKeyCalls, ResumedSplits                    int
 }
 
 func buildData(p Program) (map[string][]Rec, map[string]int) {
@@ -338,6 +338,11 @@ func Run(p Program, c *hx.Case) (st Stats, err error) {
 	if err := checkPositions(w); err != nil {
 		return st, err
 	}
+	resumed, err := checkAssignments(w)
+	if err != nil {
+		return st, err
+	}
+	st.ResumedSplits = resumed
 	if st.Kills == 0 && st.JobRestarts == 0 && st.SelfExits == 0 {
 		n, err := CheckDelivery(w, data, p.Cfg.Groups)
 		if err != nil {
@@ -475,6 +480,48 @@ func CheckDelivery(w *World, data map[string][]Rec, groups int) (barriersWithBot
 		return 0, hx.Errf("%d distinct records were delivered, the input has %d", len(seen), total)
 	}
 	return barriersWithBothSides, nil
+}
+
+// checkAssignments: within one splitter start every split is taken over by at
+// most one reader, at the position the restored checkpoint holds; and that
+// position is what the source runners reported for that checkpoint.
+func checkAssignments(w *World) (resumed int, err error) {
+	w.mu.Lock()
+	defer w.mu.Unlock()
+	reported := map[uint64]map[string]int{}
+	for _, ack := range w.SRAcks {
+		for _, st := range ack.SplitStates {
+			var ss splitState
+			if json.Unmarshal(st, &ss) == nil {
+				if reported[ack.CheckpointId] == nil {
+					reported[ack.CheckpointId] = map[string]int{}
+				}
+				reported[ack.CheckpointId][ss.Split] = ss.Pos
+			}
+		}
+	}
+	for i, r := range w.Rounds {
+		for split, applied := range r.Applied {
+			if len(applied) > 1 {
+				return 0, hx.Errf("deployment %d: split %s was taken over by %d readers (at positions %v): every split must have exactly one reader", i+1, split, len(applied), applied)
+			}
+			if applied[0] != r.Pos[split] {
+				return 0, hx.Errf("deployment %d: split %s resumes at %d, the restored checkpoint %d holds position %d", i+1, split, applied[0], r.CkptID, r.Pos[split])
+			}
+			if r.CkptID != 0 {
+				if rep, ok := reported[r.CkptID][split]; ok && rep != applied[0] {
+					return 0, hx.Errf("deployment %d: split %s resumes at %d, its runner reported position %d for checkpoint %d", i+1, split, applied[0], rep, r.CkptID)
+				}
+				if applied[0] > 0 {
+					resumed++
+				}
+			}
+		}
+	}
+	if len(w.RestoredDups) > 0 {
+		return 0, hx.Errf("a restored checkpoint lists a split more than once: %v", w.RestoredDups)
+	}
+	return resumed, nil
 }
 
 // checkPositions: C16's generic clause over the recorded streams. For every
